@@ -22,6 +22,7 @@ use std::{
 use tower::{Layer, Service, ServiceExt};
 
 pub const NPEERS: usize = 6;
+pub const GAUGES: usize = 4096;
 
 pub struct Shared {
     gauge: Vec<AtomicI64>,
@@ -75,7 +76,7 @@ impl Service<Request<Bytes>> for Gauged {
     }
     fn call(&mut self, req: Request<Bytes>) -> Self::Future {
         let sh = self.0.clone();
-        let peer = req.peer_id().map(|p| p.0[0] as usize).unwrap_or(0);
+        let peer = req.peer_id().map(|p| p.0[0] as usize | (p.0[1] as usize) << 8).unwrap_or(0) % GAUGES;
         let id: u64 = req.headers().get("id").and_then(|s| s.parse().ok()).unwrap_or(0);
         // the observation: one atomic update whose return value is what we judge
         let now = sh.gauge[peer].fetch_add(1, Ordering::SeqCst) + 1;
@@ -141,6 +142,7 @@ impl<F: Future> Future for PollBudget<F> {
 fn pid(p: usize) -> PeerId {
     let mut b = [0u8; 32];
     b[0] = p as u8;
+    b[1] = (p >> 8) as u8;
     b[31] = 0xaa;
     PeerId(b)
 }
@@ -161,8 +163,8 @@ pub fn scenario(idx: usize, seed: u64, reqs_per_task: usize) -> ScenarioResult {
     let npeers = rng.gen_range(1..=NPEERS);
     let ntasks = rng.gen_range(4..=16usize);
     let sh = Arc::new(Shared {
-        gauge: (0..NPEERS).map(|_| AtomicI64::new(0)).collect(),
-        max_seen: (0..NPEERS).map(|_| AtomicI64::new(0)).collect(),
+        gauge: (0..GAUGES).map(|_| AtomicI64::new(0)).collect(),
+        max_seen: (0..GAUGES).map(|_| AtomicI64::new(0)).collect(),
         limit: limit as i64,
         over: Mutex::new(vec![]),
         invoked: AtomicU64::new(0),
@@ -250,6 +252,36 @@ pub fn scenario(idx: usize, seed: u64, reqs_per_task: usize) -> ScenarioResult {
             let _ = h.await;
         }
     });
+    // ---- fresh-peer rounds: every round all tasks fire at one brand-new peer at the same moment
+    // (the first requests of a peer are where its bookkeeping is created)
+    let fresh_rounds = if super::miri() { 3 } else { 400 };
+    let fresh_tasks = 8usize;
+    let fresh_violation: Arc<Mutex<Option<String>>> = Default::default();
+    rt.block_on(async {
+        let barrier = Arc::new(tokio::sync::Barrier::new(fresh_tasks));
+        let mut hs = Vec::new();
+        for t in 0..fresh_tasks {
+            let mut svc = if t % 2 == 0 { layer.clone().layer(Gauged(sh.clone())) } else { svc.clone() };
+            let (barrier, next_id, stats) = (barrier.clone(), next_id.clone(), stats.clone());
+            hs.push(tokio::spawn(async move {
+                for r in 0..fresh_rounds {
+                    let p = 100 + r; // never used before
+                    barrier.wait().await;
+                    let id = next_id.fetch_add(1, Ordering::SeqCst);
+                    stats[5].fetch_add(1, Ordering::Relaxed);
+                    match svc.ready().await.unwrap().call(req(id, Some(p), "ok:3")).await {
+                        Ok(_) => { stats[0].fetch_add(1, Ordering::Relaxed); }
+                        Err(s) if s.status() == StatusCode::TooManyRequests => { stats[2].fetch_add(1, Ordering::Relaxed); }
+                        Err(_) => { stats[1].fetch_add(1, Ordering::Relaxed); }
+                    }
+                }
+            }));
+        }
+        for h in hs {
+            let _ = h.await;
+        }
+    });
+    let _ = &fresh_violation;
     let mut problems = std::mem::take(&mut *problems.lock().unwrap());
     let over_before = sh.over.lock().unwrap().len();
     problems.extend(sh.over.lock().unwrap().iter().take(3).cloned());
@@ -267,7 +299,7 @@ pub fn scenario(idx: usize, seed: u64, reqs_per_task: usize) -> ScenarioResult {
         problems.push(format!("wrapped service invoked {invoked} times for {} admitted requests", ok + err + cancelled));
     }
     // quiescent point: no leak
-    for p in 0..NPEERS {
+    for p in 0..GAUGES {
         let g = sh.gauge[p].load(Ordering::SeqCst);
         if g != 0 {
             problems.push(format!("gauge of peer {p} is {g} at quiescence"));
@@ -340,6 +372,7 @@ pub fn scenario(idx: usize, seed: u64, reqs_per_task: usize) -> ScenarioResult {
         .count("cancelled", cancelled)
         .count("scenarios_reaching_limit", (max_reached == limit as i64) as u64)
         .count("capacity_probes", probe_ok)
+        .count("fresh_peer_rounds", fresh_rounds as u64)
 }
 
 pub fn run(ctx: &Ctx) -> i32 {
@@ -348,25 +381,25 @@ pub fn run(ctx: &Ctx) -> i32 {
         property: "C18",
         tier,
         seed: ctx.seed,
-        scenarios: tier.pick(200, 3_000),
+        scenarios: if super::miri() { 2 } else { tier.pick(200, 3_000) },
         threads: 4,
         watchdog: Duration::from_secs(300),
         budget: Duration::from_secs(tier.pick(90, 900)),
         only: ctx.only,
     };
-    let per_task = tier.pick(1_500, 20_000);
+    let per_task = if super::miri() { 12 } else { tier.pick(1_500, 20_000) };
     let summary = runner::run_scenarios(&cfg, move |i, s| scenario(i, s, per_task));
     runner::finish(Report {
         property: "C18",
         tier,
         seed: ctx.seed,
         level: "exploration",
-        rule: "scenario = InflightLimitLayer(limit in {1,2,3,8,64}, Block|ReturnError) around a gauged service on a 4-worker tokio runtime; 4-16 tasks share clones of the layered service (and services built from clones of the layer) and issue 1.5k (thorough 20k) requests each for 1-6 peers: finish after 0-7 yields, fail, or get cancelled after 0-5 polls (before the permit, while waiting for it, inside the call); the gauge is one fetch_add in the synchronous part of the inner call() whose return value is the observation (<= limit), a guard decrements on completion/error/drop; at quiescence gauges are 0 and a probe fills every peer with exactly `limit` never-finishing requests (the next is refused / keeps waiting) which also shows per-peer isolation; distinct by (mode, limit, limit reached, refusals seen, cancellations seen)".into(),
+        rule: "scenario = InflightLimitLayer(limit in {1,2,3,8,64}, Block|ReturnError) around a gauged service on a 4-worker tokio runtime; 4-16 tasks share clones of the layered service (and services built from clones of the layer) and issue 1.5k (thorough 20k) requests each for 1-6 peers: finish after 0-7 yields, fail, or get cancelled after 0-5 polls (before the permit, while waiting for it, inside the call); the gauge is one fetch_add in the synchronous part of the inner call() whose return value is the observation (<= limit), a guard decrements on completion/error/drop; at quiescence gauges are 0; 400 fresh-peer rounds make 8 tasks fire at one brand-new peer at the same moment (barrier) so that the creation of a peer's bookkeeping is itself raced; a probe fills every peer with exactly `limit` never-finishing requests (the next is refused / keeps waiting) which also shows per-peer isolation; distinct by (mode, limit, limit reached, refusals seen, cancellations seen)".into(),
         assumptions: vec!["interleavings are those a 4-worker runtime produces; the over-limit probe waits 30 ms of real time".into()],
         summary,
         extra: Default::default(),
         exhaustive: None,
         min_signatures: 8,
-        required_counters: vec!["admitted_ok", "inner_errors", "refused_too_many", "cancelled", "scenarios_reaching_limit", "capacity_probes"],
+        required_counters: vec!["admitted_ok", "inner_errors", "refused_too_many", "cancelled", "scenarios_reaching_limit", "capacity_probes", "fresh_peer_rounds"],
     })
 }
